@@ -142,13 +142,28 @@ async def _member(case, spec, tag, obs, c, loop, net, ctl):
             obs.ev(loop, "assigned_end", tag, epoch=m["epoch"],
                    after=sorted(tpk(*tp) for tp in consumer.assignment()))
 
+    class Delegating(ConsumerRebalanceListener):
+        """The same listener written the other legal way: plain methods that hand back the coroutine of a helper
+        (the documented contract is "a coroutine or function")."""
+        def __init__(self):
+            self._inner = L()
+
+        def on_partitions_revoked(self, revoked):
+            return self._inner.on_partitions_revoked(revoked)
+
+        def on_partitions_assigned(self, assigned):
+            return self._inner.on_partitions_assigned(assigned)
+
+    def make_listener():
+        return Delegating() if spec.get("listener_style") == "delegating" else L()
+
     def subscribe(topics):
         if isinstance(spec["topics"], str) and not isinstance(topics, str):
             topics = "|".join(topics)        # a pattern subscriber stays a pattern subscriber
         if isinstance(topics, str):
-            consumer.subscribe(pattern=topics, listener=L())
+            consumer.subscribe(pattern=topics, listener=make_listener())
         else:
-            consumer.subscribe(list(topics), listener=L())
+            consumer.subscribe(list(topics), listener=make_listener())
         obs.ev(loop, "subscribe", tag, topics=topics)
 
     subscribe(spec["topics"])
